@@ -1,4 +1,5 @@
 import Glom.Model.C15Lazy
+import Glom.Spec.C15
 /-
   C15 — reference semantics of the lazy Flatten, "as a user would say it":
 
@@ -51,6 +52,12 @@ def endsInStop : List PullObs → Bool
   | [] => false
   | [.stop _] => true
   | _ :: r => endsInStop r
+
+/-- what the observer of a RESULT (who consumes a lazy result to the end, as the harness does for the
+    cases that are not pull cases) sees of a lazy run: the values as a consumed chain, or the
+    TypeError it ended in -/
+def showRun (env : Env) (run : Nat × List PullObs) : R :=
+  if endsInStop run.2 then .fresh (.tuple "chain" (pulledValues run.2)) else errR env typeErr
 
 /-- the lazy checker: the observed creation count and pulls are the reference ones -/
 def checkLazy (h0 : Heap) (k : Nat) (xs : List Val) (obs : Nat × List PullObs) : Bool :=
